@@ -293,6 +293,11 @@ def _demangled(c, name):
     return None
 
 
+_OPERATOR_INT = {'or_': lambda a, b: a | b, 'and_': lambda a, b: a & b, 'xor': lambda a, b: a ^ b, 'add': lambda a, b: a + b,
+                 'sub': lambda a, b: a - b, 'mul': lambda a, b: a * b, 'lshift': lambda a, b: a << b if 0 <= b <= 64 else 0,
+                 'rshift': lambda a, b: a >> b if b >= 0 else 0}
+
+
 def _num(v):
     if isinstance(v, Obj) and v.ival is not None:
         return v.ival
@@ -634,6 +639,9 @@ class Evaluator(object):
                     raise Raised('ValueError', 'maxlen must be non-negative')
                 items = items[len(items) - maxlen:] if maxlen else []
             return items
+        if isinstance(f, Ext) and f.name.startswith('operator.') and f.name[9:] in _OPERATOR_INT and len(args) == 2 and not kwargs and \
+                all(isinstance(_num(a), int) for a in args):
+            return _OPERATOR_INT[f.name[9:]](_num(args[0]), _num(args[1]))        # operator.or_(a, b) on integers is a | b
         if isinstance(f, Ext):
             if f.name in ('logging.getLogger', 'logging.Logger.getChild', 'logging.LoggerAdapter') or \
                     (f.name.startswith('logging.Logger') and f.name.split('.')[-1] == 'getChild'):
